@@ -14,12 +14,12 @@ func (*inRange) Exit(node *Node) {
 	case *BinaryNode:
 		if n.Operator == "in" || n.Operator == "not in" {
 			// The rewrite evaluates the left operand twice and compares it as
-			// an int: only a plain identifier of int type (or of a type not
+			// an int: only a plain identifier of the predeclared int type (or of a type not
 			// known yet) can be rewritten without changing the result.
 			if _, ok := n.Left.(*IdentifierNode); !ok {
 				return
 			}
-			if t := n.Left.Type(); t != nil && t.Kind() != reflect.Int {
+			if t := n.Left.Type(); t != nil && t != reflect.TypeOf(0) {
 				return
 			}
 			if rng, ok := n.Right.(*BinaryNode); ok && rng.Operator == ".." {
